@@ -3,6 +3,7 @@ CONSTANTS
   Denoms = {"eth"}
   Mods <- Mods0
   AddrMode = "simple"
+  Stock = FALSE
   MaxTx = 5
   Fuel = 3
   Level = 2
